@@ -106,7 +106,7 @@ func C03(c *Ctx) {
 		"(typestate) every store of an order whose Status is a constant is one of: Raised on a fresh order; Rejected under Status==Raised and [elapsed>=DecisionTimeLimit ∧ accepts<MinAccepts] or [rejects > len(signers)-MinAccepts]; Accepted under Status==Raised ∧ accepts>=MinAccepts ∧ ¬(rejects>threshold); Completed under Status==Accepted; any other writer must copy Status from the loaded order (or be genesis import); " +
 		"(A3) in the begin blocker no path runs the minting step after the tally step (one-block delay); inside the completion loop every iteration that stores Completed also mints and dequeues the same id, and every tally outcome dequeues from the raised queue (accept also enqueues in the accepted queue) before the next iteration. " +
 		"Decides these structural necessary conditions on every path; does not decide queue/status consistency as an inductive invariant over histories."
-	r.Rules = []string{"A1.section-writers", "A2.raise-guards", "A7.raise-fields", "A2.decide-guards", "A2.decide-once-loop", "A4.decide-fields", "TS.status-transition", "A3.one-block-delay", "A3.completion-pairing", "A3.tally-pairing"}
+	r.Rules = []string{"A1.section-writers", "A2.whitelist-action", "A2.raise-guards", "A7.raise-fields", "A2.decide-guards", "A2.decide-once-loop", "A4.decide-fields", "TS.status-transition", "A3.one-block-delay", "A3.completion-pairing", "A3.tally-pairing"}
 	r.Trusted = []string{"bank MintCoins semantics", "params are read from the store at every use (C16)"}
 	r.NotDecided = []string{"consistency of queues and statuses over all histories (inductive)", "behaviour of uint64 subtraction now-RaiseTime when block time goes backwards"}
 
@@ -128,6 +128,7 @@ func C03(c *Ctx) {
 	r.Floor("root/section-writer pairs", n, 12)
 
 	raiseRules(c)
+	whitelistRules(c)
 	decideRules(c)
 	statusTypestate(c)
 	blockerOrdering(c)
@@ -700,4 +701,51 @@ func containsInstr(xs []ssa.Instruction, x ssa.Instruction) bool {
 		}
 	}
 	return false
+}
+
+// whitelistRules: the whitelist handler adds / removes exactly addr(msg.Address), the add only
+// under msg.Action == Add, the remove only under msg.Action == Remove.
+func whitelistRules(c *Ctx) {
+	w, r := c.W, c.R
+	h := handlerOf(c, "enterprise", "WhitelistAddress")
+	if h == nil {
+		r.Undecided("A2.whitelist-action", "handler", "", "WhitelistAddress handler found", "missing")
+		return
+	}
+	n := 0
+	for _, in := range instantiate(c, h, func(e ir.Effect) bool {
+		return (e.Kind == "StoreWrite" || e.Kind == "StoreDelete") && e.Section == secWhitelist && e.Key != nil
+	}, func(e ir.Effect) *ir.Expr { return e.Key }) {
+		n++
+		ka := keyArgs(in.E)
+		r.Require(len(ka) == 1 && isAddrOf(ka[0], "Address"), "A2.whitelist-action", "key|"+in.Eff.Kind, pos(c, in.Eff.Site), "the whitelist entry changed is that of addr(msg.Address)", "key "+in.E.String())
+		want := "x/enterprise/types.WhitelistActionAdd"
+		if in.Eff.Kind == "StoreDelete" {
+			want = "x/enterprise/types.WhitelistActionRemove"
+		}
+		// the guard lives in the keeper helper that switches on the action: judge it at the first call in the handler
+		first := in.Eff.Site
+		top := in.Eff.Fn
+		if len(in.Chain) > 0 {
+			first = in.Chain[len(in.Chain)-1]
+			top = first.Parent()
+		}
+		_ = top
+		ok := false
+		// walk the chain from the handler down: some function on it must guard its step by action == want
+		sites := append([]ssa.Instruction{}, in.Chain...)
+		sites = append(sites, in.Eff.Site)
+		for _, s := range sites {
+			f := s.Parent()
+			if w.Guarded(f, s, func(p ir.Pred) bool {
+				return cmpIs(p, "==", func(x *ir.Expr) bool {
+					return x.Op == "param" || isMsgField(x, "Action")
+				}, func(y *ir.Expr) bool { return y.Op == "const" && y.Name == want })
+			}, 1) {
+				ok = true
+			}
+		}
+		r.Require(ok, "A2.whitelist-action", "action|"+in.Eff.Kind, pos(c, in.Eff.Site), "an address is "+map[string]string{"StoreWrite": "added", "StoreDelete": "removed"}[in.Eff.Kind]+" only for the matching msg.Action", "no action == "+want+" guard on the route")
+	}
+	r.Floor("whitelist writes/deletes reachable from WhitelistAddress", n, 2)
 }
